@@ -9,9 +9,16 @@
 // without JSON responses and event store; optionally after an earlier connection to the SAME
 // Server through a second streamable handler of the other kind), and records
 //   - the outcome of Client.Connect (error, or InitializeResult().ProtocolVersion),
-//   - the methods the client sent while connecting (sending middleware),
+//   - the methods the client issued while connecting (sending middleware) and the requests that really left
+//     it for the peer (wire: a tap on the client's pipe connection / the POST bodies arriving at the endpoint),
 //   - the results of ListTools and CallTool issued immediately afterwards
 // into VERIF_OUT for the TLA+ monitor NegotiateMon.
+//
+// The peer's answers are dimensions of the matrix too: a server receiving middleware rewrites the version of
+// the initialize result (ians: a peer that speaks one fixed revision, known or unknown to the SDK), and a small
+// http.Handler front answers the server/discover POST - and nothing else - like a front end or older server
+// that does not know the probe (disc = http404/400/405/501 with a text/plain, empty, HTML or non-JSON-RPC
+// JSON body); every other request reaches the real handler.
 //
 // HTTP transports do not open sockets: an in-process http.RoundTripper runs
 // handler.ServeHTTP in a goroutine with a pipe-backed, flushable ResponseWriter. Every
@@ -51,19 +58,23 @@ type c07Case struct {
 	Store bool     `json:"store"`
 	Wrap  bool     `json:"wrap"`
 	Adv   []string `json:"adv"`
-	Disc  string   `json:"disc"`
+	Disc  string   `json:"disc"`  // native | notfound | unsupp | http404 | http400 | http405 | http501
+	DBody string   `json:"dbody"` // none | text | empty | html | json: body of the plain HTTP answer to the discover POST
 	Prior string   `json:"prior"` // none | stateless | stateful: earlier connection to the same Server
 	Early bool     `json:"early"` // the client's first request arrives while Server.Connect asks the transport for its versions
+	IAns  string   `json:"ians"`  // honest | a version | unk_*: the version the peer puts into its initialize result
 }
 
 type c07Real struct {
 	Kind     string   `json:"kind"` // session | error
 	Version  string   `json:"version"`
 	NDisc    int      `json:"nDisc"`
-	SentInit bool     `json:"sentInit"`
+	SentInit bool     `json:"sentInit"` // an initialize request left the client during Connect (wire)
 	ListOK   bool     `json:"listOK"`
 	CallOK   bool     `json:"callOK"`
-	Methods  []string `json:"methods"` // sent by the client during Connect
+	Methods  []string `json:"methods"` // issued by the client during Connect (sending middleware)
+	Wire     []string `json:"wire"`    // requests that left the client during Connect (pipe tap / POST bodies at the endpoint)
+	Fronted  int      `json:"fronted"` // discover POSTs answered by the HTTP front (information only)
 	Err      string   `json:"err"`     // Connect / ListTools / CallTool error text (information only)
 	PriorVer string   `json:"priorVersion"` // what the earlier connection negotiated (information only)
 }
@@ -73,6 +84,7 @@ type c07Line struct {
 	Real   c07Real  `json:"o"`
 	Rep    int      `json:"rep"`
 	ReqStr string   `json:"reqstr"` // concrete requested version string
+	AnsStr string   `json:"ansstr"` // concrete version string the peer answers initialize with ("" = honest)
 	Tools  []string `json:"tools"`
 	Listen bool     `json:"listen"`
 }
@@ -150,6 +162,60 @@ func (rt *c07RT) RoundTrip(req *http.Request) (*http.Response, error) {
 }
 
 // ---------------------------------------------------------------------------
+// HTTP front: sees every request before the real handler does. It notes the JSON-RPC method of every POST
+// (the wire, as far as the client's outgoing requests are concerned) and - in the http* discover cells - answers
+// the server/discover POST itself with a plain HTTP error whose body is no JSON-RPC message.
+
+type c07Front struct {
+	h      http.Handler
+	status int    // 0: pass everything on
+	body   string // text | empty | html | json
+	note   func(method string)
+	mu     sync.Mutex
+	hits   int
+}
+
+func (f *c07Front) ServeHTTP(w http.ResponseWriter, r *http.Request) {
+	if r.Method == http.MethodPost && r.Body != nil {
+		b, _ := io.ReadAll(r.Body)
+		r.Body.Close()
+		r.Body = io.NopCloser(strings.NewReader(string(b)))
+		var m struct {
+			Method string           `json:"method"`
+			ID     *json.RawMessage `json:"id"`
+		}
+		if json.Unmarshal(b, &m) == nil && m.Method != "" {
+			f.note(m.Method)
+			if m.Method == "server/discover" && f.status != 0 {
+				f.mu.Lock()
+				f.hits++
+				f.mu.Unlock()
+				txt := strconv.Itoa(f.status) + " " + http.StatusText(f.status)
+				switch f.body {
+				case "text":
+					w.Header().Set("Content-Type", "text/plain; charset=utf-8")
+					w.Header().Set("X-Content-Type-Options", "nosniff")
+					w.WriteHeader(f.status)
+					io.WriteString(w, http.StatusText(f.status)+"\n")
+				case "html":
+					w.Header().Set("Content-Type", "text/html; charset=utf-8")
+					w.WriteHeader(f.status)
+					io.WriteString(w, "<html><head><title>"+txt+"</title></head><body><h1>"+txt+"</h1></body></html>\n")
+				case "json":
+					w.Header().Set("Content-Type", "application/json")
+					w.WriteHeader(f.status)
+					io.WriteString(w, `{"status":`+strconv.Itoa(f.status)+`,"error":"`+http.StatusText(f.status)+`","path":"`+r.URL.Path+`"}`)
+				default: // empty
+					w.WriteHeader(f.status)
+				}
+				return
+			}
+		}
+	}
+	f.h.ServeHTTP(w, r)
+}
+
+// ---------------------------------------------------------------------------
 // server transport wrapper: the only way the public API offers to vary what the server advertises
 
 type c07PVS struct {
@@ -161,29 +227,37 @@ type c07PVS struct {
 	early func()
 }
 
-// c07EarlyT reports when the first message written by the client has been consumed by the peer (both the
-// in-memory pipe and io.Pipe hand a message over synchronously).
-type c07EarlyT struct {
+// c07TapT is the wire tap of the client's end of the in-memory / io pipes: it notes the method of every request
+// that was handed to the peer (both pipes hand a message over synchronously), and reports when the first message
+// written by the client has been consumed (early cells).
+type c07TapT struct {
 	mcp.Transport
 	wrote func()
+	note  func(method string)
 }
 
-type c07EarlyConn struct {
+type c07TapConn struct {
 	mcp.Connection
 	wrote func()
+	note  func(method string)
 }
 
-func (t *c07EarlyT) Connect(ctx context.Context) (mcp.Connection, error) {
+func (t *c07TapT) Connect(ctx context.Context) (mcp.Connection, error) {
 	c, err := t.Transport.Connect(ctx)
 	if err != nil {
 		return nil, err
 	}
-	return &c07EarlyConn{Connection: c, wrote: t.wrote}, nil
+	return &c07TapConn{Connection: c, wrote: t.wrote, note: t.note}, nil
 }
 
-func (c *c07EarlyConn) Write(ctx context.Context, m jsonrpc.Message) error {
+func (c *c07TapConn) Write(ctx context.Context, m jsonrpc.Message) error {
 	err := c.Connection.Write(ctx, m)
-	c.wrote()
+	if r, ok := m.(*jsonrpc.Request); ok && err == nil {
+		c.note(r.Method)
+	}
+	if c.wrote != nil {
+		c.wrote()
+	}
 	return err
 }
 
@@ -223,6 +297,14 @@ func c07Run(t *testing.T, r *rand.Rand, c c07Case, rep int) c07Line {
 		reqStr = ""
 	}
 	line.ReqStr = reqStr
+	// the version string the peer puts into every initialize result ("" = leave the SDK server's answer alone)
+	ansStr := ""
+	if pool, ok := c07Unknown[c.IAns]; ok {
+		ansStr = pool[r.IntN(len(pool))]
+	} else if c.IAns != "honest" && c.IAns != "" {
+		ansStr = c.IAns
+	}
+	line.AnsStr = ansStr
 	ntools := 1 + r.IntN(3)
 	var tools []string
 	for i := 0; i < ntools; i++ {
@@ -251,19 +333,31 @@ func c07Run(t *testing.T, r *rand.Rand, c c07Case, rep int) c07Line {
 	// early cells: closed once the server's reader has taken the client's first message off the transport
 	arrived := make(chan struct{})
 	var arrivedOnce sync.Once
-	if c.Disc != "native" {
+	if c.Disc == "notfound" || c.Disc == "unsupp" || ansStr != "" {
 		server.AddReceivingMiddleware(func(next mcp.MethodHandler) mcp.MethodHandler {
 			return func(ctx context.Context, method string, req mcp.Request) (mcp.Result, error) {
-				if method == "server/discover" {
+				if method == "server/discover" && (c.Disc == "notfound" || c.Disc == "unsupp") {
 					if c.Disc == "notfound" {
 						return nil, &jsonrpc.Error{Code: jsonrpc.CodeMethodNotFound, Message: "method not found: server/discover"}
 					}
 					data, _ := json.Marshal(mcp.UnsupportedProtocolVersionData{Supported: c07Legacy, Requested: "2026-07-28"})
 					return nil, &jsonrpc.Error{Code: mcp.CodeUnsupportedProtocolVersion, Message: "unsupported protocol version", Data: data}
 				}
-				return next(ctx, method, req)
+				res, err := next(ctx, method, req)
+				if ir, ok := res.(*mcp.InitializeResult); ok && err == nil && ansStr != "" {
+					// a peer that speaks one revision through initialize and says so
+					cp := *ir
+					cp.ProtocolVersion = ansStr
+					return &cp, nil
+				}
+				return res, err
 			}
 		})
+	}
+	// http* discover cells: the status / body the front answers the probe with
+	frontStatus := 0
+	if strings.HasPrefix(c.Disc, "http") {
+		frontStatus, _ = strconv.Atoi(strings.TrimPrefix(c.Disc, "http"))
 	}
 
 	// --- client
@@ -274,6 +368,21 @@ func c07Run(t *testing.T, r *rand.Rand, c c07Case, rep int) c07Line {
 	client := mcp.NewClient(&mcp.Implementation{Name: "c07-client", Version: "v1"}, copts)
 	var mu sync.Mutex
 	connecting := true
+	// the wire: requests that left the client for the peer while it was connecting
+	noteWire := func(method string) {
+		mu.Lock()
+		if connecting {
+			out.Wire = append(out.Wire, method)
+		}
+		mu.Unlock()
+	}
+	out.Wire = []string{}
+	var fronts []*c07Front
+	front := func(h http.Handler) http.Handler {
+		f := &c07Front{h: h, status: frontStatus, body: c.DBody, note: noteWire}
+		fronts = append(fronts, f)
+		return f
+	}
 	client.AddSendingMiddleware(func(next mcp.MethodHandler) mcp.MethodHandler {
 		return func(ctx context.Context, method string, req mcp.Request) (mcp.Result, error) {
 			mu.Lock()
@@ -305,7 +414,7 @@ func c07Run(t *testing.T, r *rand.Rand, c c07Case, rep int) c07Line {
 			if c.Early {
 				w.early = func() {
 					go func() {
-						et := &c07EarlyT{Transport: earlyCT, wrote: func() { arrivedOnce.Do(func() { close(arrived) }) }}
+						et := &c07TapT{Transport: earlyCT, note: noteWire, wrote: func() { arrivedOnce.Do(func() { close(arrived) }) }}
 						cs, err := client.Connect(cctx, et, &mcp.ClientSessionOptions{ProtocolVersion: reqStr})
 						earlyDone <- connRes{cs, err}
 					}()
@@ -335,7 +444,7 @@ func c07Run(t *testing.T, r *rand.Rand, c c07Case, rep int) c07Line {
 			t.Fatalf("server.Connect: %v", err)
 		}
 		cleanup = append(cleanup, func() { ss.Close() })
-		ct = cti
+		ct = &c07TapT{Transport: cti, note: noteWire}
 	case "io":
 		c2sR, c2sW := io.Pipe()
 		s2cR, s2cW := io.Pipe()
@@ -345,22 +454,25 @@ func c07Run(t *testing.T, r *rand.Rand, c c07Case, rep int) c07Line {
 			t.Fatalf("server.Connect: %v", err)
 		}
 		cleanup = append(cleanup, func() { c2sW.Close(); s2cR.Close(); ss.Close() })
-		ct = &mcp.IOTransport{Reader: s2cR, Writer: c2sW}
+		ct = &c07TapT{Transport: &mcp.IOTransport{Reader: s2cR, Writer: c2sW}, note: noteWire}
 	case "sse":
-		h := mcp.NewSSEHandler(getServer, nil)
+		h := front(mcp.NewSSEHandler(getServer, nil))
 		ct = &mcp.SSEClientTransport{Endpoint: "http://c07.verif.test/sse", HTTPClient: &http.Client{Transport: &c07RT{h: h}}}
 	case "stateful", "statefulnosid", "stateless":
-		mk := func(stateless bool, url string) mcp.Transport {
+		mk := func(stateless bool, url string, judged bool) mcp.Transport {
 			o := &mcp.StreamableHTTPOptions{Stateless: stateless, JSONResponse: c.JSON}
 			if c.Store {
 				o.EventStore = mcp.NewMemoryEventStore(nil)
 			}
-			h := mcp.NewStreamableHTTPHandler(getServer, o)
+			var h http.Handler = mcp.NewStreamableHTTPHandler(getServer, o)
+			if judged {
+				h = front(h)
+			}
 			return &mcp.StreamableClientTransport{Endpoint: url, HTTPClient: &http.Client{Transport: &c07RT{h: h}}}
 		}
 		if c.Prior != "none" && c.Prior != "" {
 			// One Server behind two endpoints: a default client uses the other endpoint first.
-			pt := mk(c.Prior == "stateless", "http://c07.verif.test/other")
+			pt := mk(c.Prior == "stateless", "http://c07.verif.test/other", false)
 			pc := mcp.NewClient(&mcp.Implementation{Name: "c07-prior-client", Version: "v1"}, nil)
 			pctx, pcancel := context.WithTimeout(ctx, 30*time.Second)
 			pcs, perr := pc.Connect(pctx, pt, nil)
@@ -375,7 +487,7 @@ func c07Run(t *testing.T, r *rand.Rand, c c07Case, rep int) c07Line {
 			}
 			pcancel()
 		}
-		ct = mk(c.Tr == "stateless", "http://c07.verif.test/mcp")
+		ct = mk(c.Tr == "stateless", "http://c07.verif.test/mcp", true)
 	default:
 		t.Fatalf("transport %q", c.Tr)
 	}
@@ -398,11 +510,15 @@ func c07Run(t *testing.T, r *rand.Rand, c c07Case, rep int) c07Line {
 		switch m {
 		case "server/discover":
 			out.NDisc++
-		case "initialize":
-			out.SentInit = true
 		}
 	}
+	out.SentInit = slices.Contains(out.Wire, "initialize")
 	mu.Unlock()
+	for _, f := range fronts {
+		f.mu.Lock()
+		out.Fronted += f.hits
+		f.mu.Unlock()
+	}
 	if err != nil {
 		errs = append(errs, "connect: "+err.Error())
 	} else {
@@ -496,6 +612,12 @@ func TestVerif_C07(t *testing.T) {
 		}
 		if c.Prior == "" {
 			c.Prior = "none"
+		}
+		if c.DBody == "" {
+			c.DBody = "none"
+		}
+		if c.IAns == "" {
+			c.IAns = "honest"
 		}
 		cases = append(cases, c)
 	}
